@@ -93,17 +93,24 @@ def outcome_rules(run, F, E):
                    key='S_::%s does not deliver %s exactly once' % (m, user_m))
     # PlanT::clear: all tasks and the status bits of every state
     for fn in F.find('PlanT', 'clear'):
+        # evaluated: which (bit array, index) pairs get cleared and that the task list is emptied -- one loop or two, in any order
+        from lint import symeval
         rec = F.rec_by_name.get(fn.cls) or {}
         n_states = rec.get('consts', {}).get('STATE_COUNT')
-        calls = [e.get('m') for e, g in E.call_sites(fn)]
-        lps = loops.loops_of(fn)
-        ok = 'clearTasks' in calls and len(lps) == 1 and n_states is not None and loops.full_extent(lps[0], n_states)
-        if ok:
-            cl = sorted(ir.pp(ir.strip(e['obj'])) for e, g in E.call_sites(fn) if e.get('m') == 'clear' and ir.is_expr(e.get('obj')))
-            args = [ir.strip(e['args'][0]) for e, g in E.call_sites(fn) if e.get('m') == 'clear' and e.get('args')]
-            ok = cl == ['_planData.tasksFailures', '_planData.tasksSuccesses'] and all(a.get('k') == 'var' and a.get('id') == lps[0].var['id'] for a in args)
+        ev = symeval.Eval(F, {}, [])
+        ev.primitive = lambda g, obj, args: (g.tkey == 'ffsm2::detail::BitArrayT' and g.m == 'clear') or g.m == 'clearTasks'
+        try:
+            sm = ev.run(fn, [])
+        except symeval.Refuse as ex:
+            raise AnalysisBroken('PlanT::clear is outside the offset-domain fragment: %s' % ex)
+        cleared = {}
+        for name, obj, args in sm.events:
+            if name.endswith('BitArrayT::clear') and len(args) == 1:
+                cleared.setdefault(obj.split('.')[-1], set()).add(args[0])
+        tasks_cleared = any(name.endswith('clearTasks') for name, obj, args in sm.events)
+        ok = n_states is not None and tasks_cleared and cleared.get('tasksSuccesses') == set(range(n_states)) and cleared.get('tasksFailures') == set(range(n_states))
         run.ob('C09.a', 'PlanT::clear removes every task and clears both status bits of all %s states' % n_states, ok, where=fn.pat,
-               key='PlanT::clear leaves tasks or status bits behind')
+               detail=None if ok else {k: sorted(map(repr, v)) for k, v in cleared.items()}, key='PlanT::clear leaves tasks or status bits behind')
     for fn in F.find('PlanT', 'clearTasks'):
         c = cfgmod.cfg_of(fn)
         rm = c.events(('call',), lambda n: n.e.get('m') == 'remove')
